@@ -363,8 +363,9 @@ func (*BinaryStringExprNode) GetType() NodeType {
 }
 
 func (node *BinaryStringExprNode) IsSeekable() bool {
-	return (node.op == BinaryOpEQ || node.op == BinaryOpNEQ) &&
-		(node.left.IsConst() || node.right.IsConst())
+	// only equality can be decided from the element a seek lands on; for != every
+	// element has to be looked at
+	return node.op == BinaryOpEQ && (node.left.IsConst() || node.right.IsConst())
 }
 
 func (node *BinaryStringExprNode) EvalBoolWithSeek(s Symbols, cursor TypeSeekableSetCursor) bool {
